@@ -9,7 +9,10 @@ CONSTANTS Which   \* "C04" | "C12"
 Failed(gs)  == {g[1] : g \in {x \in gs : ~x[2]}}
 
 \* ------------------------------------------------------------------ C04
-Kinds == {"cookie", "cli", "storage", "code", "access", "idtoken"}
+\* access_aud: an access token the client asked to be minted for an additional audience of its own (it then carries an
+\* audience list); it is an access token like any other
+Kinds == {"cookie", "cli", "storage", "code", "access", "idtoken", "access_aud"}
+BaseKind(k) == IF k = "access_aud" THEN "access" ELSE k
 Consumers == {"cookiegate", "cliverify", "clisend", "storage", "tokenendpoint", "userinfo"}
 Consumes == [c \in Consumers |->
                CASE c = "cookiegate" -> "cookie" [] c = "cliverify" -> "cli" [] c = "clisend" -> "cli"
@@ -28,9 +31,9 @@ Muts == {"none", "iss", "aud", "isslike", "audlike", "nbf", "nbfjust", "exp", "e
 Art(k, s, m) == [kind |-> k, signer |-> s, mut |-> m]
 
 Intact(a)   == a.signer = "ours" /\ a.mut \notin {"tamper", "sigflip", "corrupt"}
-InWindow(a) == a.mut \notin {"exp", "expjust"} /\ (a.mut \in {"nbf", "nbfjust"} => a.kind \notin HasNbf)
+InWindow(a) == a.mut \notin {"exp", "expjust"} /\ (a.mut \in {"nbf", "nbfjust"} => BaseKind(a.kind) \notin HasNbf)
 G_C04_Signed(c, a)  == Intact(a)
-G_C04_Kind(c, a)    == a.kind = Consumes[c] /\ a.mut \notin {"notype", "nulltype"}
+G_C04_Kind(c, a)    == BaseKind(a.kind) = Consumes[c] /\ a.mut \notin {"notype", "nulltype"}
 G_C04_Window(c, a)  == InWindow(a)
 G_C04_IssAud(c, a)  == c \in NeedsIssAud => a.mut \notin {"iss", "aud", "isslike", "audlike"}
 HonourGuards(c, a) == {<<"G_C04_Signed", G_C04_Signed(c, a)>>, <<"G_C04_Kind", G_C04_Kind(c, a)>>,
@@ -46,6 +49,7 @@ C04Guards(c, a, o) == (IF o.honoured THEN HonourGuards(c, a) ELSE {<<"G_C04_Genu
 InC04(r) == \/ \E c \in Consumers, k \in Kinds : r = [consumer |-> c, art |-> Art(k, "ours", "none")]
             \/ \E c \in Consumers, s \in Signers \ {"ours"} : r = [consumer |-> c, art |-> Art(Consumes[c], s, "none")]
             \/ \E c \in Consumers, m \in Muts \ {"none"} : r = [consumer |-> c, art |-> Art(Consumes[c], "ours", m)]
+            \/ \E m \in Muts \ {"aud", "audlike"} : r = [consumer |-> "userinfo", art |-> Art("access_aud", "ours", m)]
 
 \* ------------------------------------------------------------------ C12
 Clients == {"A", "B"}                \* A holds a secret, B is secret-less (PKCE only)
@@ -116,7 +120,7 @@ Next == Present \/ Redeem
 Spec == Init /\ [][Next]_vars
 
 \* headline clauses, checked by TLC over the tables
-NeverInterchangeable == (Which = "C04" /\ out # Pending /\ out.honoured) => req.art.kind = Consumes[req.consumer]
+NeverInterchangeable == (Which = "C04" /\ out # Pending /\ out.honoured) => BaseKind(req.art.kind) = Consumes[req.consumer]
 OnlyOurSignature     == (Which = "C04" /\ out # Pending /\ out.honoured) => req.art.signer = "ours"
 AlterationRejected   == (Which = "C04" /\ out # Pending /\ req.art.mut \in {"tamper", "sigflip", "corrupt", "exp"}) => ~out.honoured
 OnlyToTheRightClient == (Which = "C12" /\ out # Pending /\ out.released) =>
